@@ -109,7 +109,8 @@ def gmres( LinOp, b, x0, N, max_iterations, threshold):
     
     beta = r_norm * e1
   
-    for k in range(max_iterations):
+    # a Krylov space of an N x N system has at most N dimensions: beyond that the Arnoldi vectors are roundoff
+    for k in range(min(max_iterations, N)):
         
         tme = datetime.datetime.now()
         q = LinOp.matvec(Q[:,k])
